@@ -3,7 +3,8 @@
      finisher_api.go   Save, FirstOrInit, FirstOrCreate, assignInterfacesToValue, Create, Find
      chainable_api.go  Where, Attrs, Assign
      gorm.go           Session, WithContext, getInstance (the clone flag 0/1/2)
-     statement.go      Statement.clone (copies the clauses, NOT attrs/assigns), BuildCondition
+     statement.go      Statement.clone (copies the clauses and, since /repo commit 2b43abc, attrs and
+                       assigns), BuildCondition
                        (struct: non-zero fields, map: every key in sorted order, key-value form)
      callbacks/create.go  ConvertToCreateValues (tracked times filled, OnConflict.UpdateAll expansion)
      callbacks/update.go  ConvertToAssignments (Save: every column; map payload + tracked update time)
@@ -161,7 +162,9 @@ Record handle := mk_handle {
 }.
 Definition root : handle := mk_handle 1 [] [] [].
 
-(* Statement.clone.  [keep] = does clone copy attrs/assigns?  The code in /repo: false. *)
+(* Statement.clone.  [keep] = does clone copy attrs/assigns?  The code in /repo: true (the two
+   copy blocks added by commit 2b43abc); keep = false is the tree before that fix, kept so that
+   Props_C16 can state that the copy is necessary. *)
 Definition clone_stmt (keep : bool) (h : handle) : handle :=
   mk_handle (h_clone h) (h_where h)
             (if keep then h_attrs h else []) (if keep then h_assigns h else []).
@@ -282,5 +285,5 @@ Definition step (keep : bool) (t : table) (now : Z) (ch : list cel) (f : fin) : 
   | FFoc ic => first_or_create keep t now h ic
   end.
 
-(* the tree as it is: Statement.clone copies neither attrs nor assigns *)
-Definition step_repo := step false.
+(* the tree as it is: Statement.clone copies attrs and assigns *)
+Definition step_repo := step true.
